@@ -16,6 +16,7 @@ CONSTANTS Chunks, Peers,      \* chunk ids; remote peer ids (the node itself is 
           PruneCache,         \* BOOLEAN: cleanup prunes cached manifests / plans (FALSE = historical deviation)
           CapPending,         \* BOOLEAN: a pending fetch's expiry is capped at now + MaxT (FALSE = historical deviation)
           EraseOnLookup,      \* BOOLEAN deviation: a lookup erases an expired chunk record silently
+          KeepLaterDeadline,  \* BOOLEAN deviation: a replica that replaces a held copy keeps the later of the two deadlines
           MaxHist,            \* bound on the number of actions per behaviour
           WithdrawOnExpiry    \* BOOLEAN: the cleanup withdraws the node's own announcement of every chunk that expired (FALSE = deviation)
 
@@ -113,9 +114,9 @@ Recv(c, e) ==
          ELSE /\ cache' = [cache EXCEPT ![c] = E]
               /\ shard' = [shard EXCEPT ![c] = now + t]
               /\ prov'  = [prov EXCEPT ![c][Self] = now + t]
-              /\ chunk' = [chunk EXCEPT ![c] = now + t]
+              /\ chunk' = [chunk EXCEPT ![c] = IF KeepLaterDeadline /\ @ # None THEN Max2(@, now + t) ELSE now + t]
               /\ pend'  = [pend EXCEPT ![c] = None]
-              /\ rec'   = [rec EXCEPT ![c] = [live |-> TRUE, dl |-> now + t]]
+              /\ rec'   = [rec EXCEPT ![c] = [live |-> TRUE, dl |-> IF KeepLaterDeadline /\ chunk[c] # None THEN Max2(chunk[c], now + t) ELSE now + t]]
               /\ bound' = [bound EXCEPT ![c] = Max2(@, Min2(E, now + MaxT))]
               /\ obs' = <<"replica", c>>
     /\ UNCHANGED <<now, plan, pendE, notif, lastClean, owed, told>>
@@ -192,6 +193,10 @@ C03_Derived == \A c \in Chunks :
     /\ shard[c] # None => shard[c] <= bound[c]
     /\ pend[c] # None => pend[c] <= bound[c]
     /\ \A h \in Holders : prov[c][h] # None => prov[c][h] <= bound[c]
+\* [C03] what an accepted replica wrote (chunk copy, key shares, own announcement) expires no later than the manifest it came
+\* with -- a later-expiring manifest seen earlier does not excuse the copy that arrived with this one
+C03_ArrivalWrites == obs[1] = "replica" =>
+    LET c == obs[2]  lim == Min2(cache[c], now + MaxT) IN chunk[c] <= lim /\ shard[c] <= lim /\ prov[c][Self] <= lim
 \* [C05] right after a cleanup tick nothing expired is left, and own announcements of expired chunks are withdrawn
 C05_Clean == obs = <<"tick", TRUE>> => \A c \in Chunks :
     /\ ~Dead(chunk[c]) /\ ~Dead(shard[c]) /\ ~Dead(pend[c])
